@@ -164,12 +164,15 @@ func genC04(t *rapid.T) any {
 
 	snippet := rapid.IntRange(0, 99).Draw(t, "snippet") >= 85
 	syntaxMain := rapid.IntRange(0, 99).Draw(t, "syntaxmain") >= 90
-	inc := rapid.SampledFrom([]string{"", "", "", "root-clean", "root-lines", "root-syntax", "stmt-clean", "stmt-lines", "stmt-syntax", "missing", "nested-syntax"}).Draw(t, "include")
-	if snippet && strings.HasPrefix(inc, "root") {
-		inc = ""
-	}
-	if inc != "" {
-		feat["include:"+inc] = true
+	// 0-2 includes, in file order: a broken module may be followed or preceded by a good one
+	incKinds := []string{"root-clean", "root-lines", "root-syntax", "stmt-clean", "stmt-lines", "stmt-syntax", "missing", "nested-syntax"}
+	var incs []string
+	switch rapid.IntRange(0, 9).Draw(t, "nincludes") {
+	case 0, 1, 2, 3:
+	case 4, 5, 6, 7:
+		incs = []string{rapid.SampledFrom(incKinds).Draw(t, "include")}
+	default:
+		incs = []string{rapid.SampledFrom(incKinds).Draw(t, "include"), rapid.SampledFrom(incKinds).Draw(t, "include2")}
 	}
 	var body []string
 	if snippet {
@@ -178,18 +181,45 @@ func genC04(t *rapid.T) any {
 	} else {
 		body = lines("main", "  ")
 	}
-	switch inc {
-	case "stmt-clean":
-		body = append(body, "  include \"s1\";")
-		c.Files["inc/s1.vcl"] = "set req.http.X-S1 = \"1\";\n"
-	case "stmt-lines":
-		body = append(body, "  include \"s1\";")
-		c.Files["inc/s1.vcl"] = strings.Join(lines("s1", ""), "\n") + "\n"
-	case "stmt-syntax":
-		body = append(body, "  include \"s1\";")
-		c.Files["inc/s1.vcl"] = "set req.http.X-S1 = \"1\";\n" + syntax("module") + "\n"
-	case "missing":
-		body = append(body, "  include \"nope\";")
+	var rootIncludes []string
+	for k, inc := range incs {
+		if snippet && (strings.HasPrefix(inc, "root") || inc == "nested-syntax") {
+			continue
+		}
+		feat["include:"+inc] = true
+		if len(incs) == 2 {
+			feat["two-includes"] = true
+		}
+		m, sm := fmt.Sprintf("m%d", k+1), fmt.Sprintf("s%d", k+1)
+		switch inc {
+		case "stmt-clean":
+			body = append(body, "  include \""+sm+"\";")
+			c.Files["inc/"+sm+".vcl"] = "set req.http.X-" + sm + " = \"1\";\n"
+		case "stmt-lines":
+			body = append(body, "  include \""+sm+"\";")
+			c.Files["inc/"+sm+".vcl"] = strings.Join(lines(sm, ""), "\n") + "\n"
+		case "stmt-syntax":
+			body = append(body, "  include \""+sm+"\";")
+			c.Files["inc/"+sm+".vcl"] = "set req.http.X-" + sm + " = \"1\";\n" + syntax("module") + "\n"
+		case "missing":
+			body = append(body, "  include \"nope\";")
+		case "root-clean":
+			rootIncludes = append(rootIncludes, m)
+			c.Files["inc/"+m+".vcl"] = "sub from_" + m + " {\n  set req.http.X-" + m + " = \"1\";\n}\n"
+			body = append(body, "  call from_"+m+";")
+		case "root-lines":
+			rootIncludes = append(rootIncludes, m)
+			c.Files["inc/"+m+".vcl"] = "sub from_" + m + " {\n" + strings.Join(lines(m, "  "), "\n") + "\n}\n"
+			body = append(body, "  call from_"+m+";")
+		case "root-syntax":
+			rootIncludes = append(rootIncludes, m)
+			c.Files["inc/"+m+".vcl"] = "sub from_" + m + " {\n  set req.http.X-" + m + " = \"1\";\n  " + syntax("module") + "\n}\n"
+		case "nested-syntax":
+			rootIncludes = append(rootIncludes, m)
+			c.Files["inc/"+m+".vcl"] = "include \"" + m + "n\";\nsub from_" + m + " {\n  set req.http.X-" + m + " = \"1\";\n}\n"
+			c.Files["inc/"+m+"n.vcl"] = "sub from_" + m + "n {\n  " + syntax("module") + "\n}\n"
+			body = append(body, "  call from_"+m+";")
+		}
 	}
 	if syntaxMain {
 		at := rapid.IntRange(0, len(body)).Draw(t, "syntaxat")
@@ -204,23 +234,8 @@ func genC04(t *rapid.T) any {
 		b.WriteString(strings.Join(body, "\n") + "\n")
 	} else {
 		b.WriteString(c04Prelude)
-		switch inc {
-		case "root-clean":
-			b.WriteString("include \"m1\";\n")
-			c.Files["inc/m1.vcl"] = "sub from_m1 {\n  set req.http.X-M1 = \"1\";\n}\n"
-			body = append(body, "  call from_m1;")
-		case "root-lines":
-			b.WriteString("include \"m1\";\n")
-			c.Files["inc/m1.vcl"] = "sub from_m1 {\n" + strings.Join(lines("m1", "  "), "\n") + "\n}\n"
-			body = append(body, "  call from_m1;")
-		case "root-syntax":
-			b.WriteString("include \"m1\";\n")
-			c.Files["inc/m1.vcl"] = "sub from_m1 {\n  set req.http.X-M1 = \"1\";\n  " + syntax("module") + "\n}\n"
-		case "nested-syntax":
-			b.WriteString("include \"m1\";\n")
-			c.Files["inc/m1.vcl"] = "include \"m2\";\nsub from_m1 {\n  set req.http.X-M1 = \"1\";\n}\n"
-			c.Files["inc/m2.vcl"] = "sub from_m2 {\n  " + syntax("module") + "\n}\n"
-			body = append(body, "  call from_m1;")
+		for _, m := range rootIncludes {
+			b.WriteString("include \"" + m + "\";\n")
 		}
 		if rapid.IntRange(0, 5).Draw(t, "unusedsub") == 0 {
 			b.WriteString("sub never_called {\n  set req.http.X-U = \"1\";\n}\n")
@@ -234,7 +249,7 @@ func genC04(t *rapid.T) any {
 		}
 	}
 	c.Main = b.String()
-	if rapid.IntRange(0, 99).Draw(t, "config") >= 50 {
+	if rapid.IntRange(0, 99).Draw(t, "config") >= 40 {
 		k := rapid.IntRange(1, 5).Draw(t, "nrules")
 		seen := map[string]bool{}
 		for i := 0; i < k; i++ {
@@ -267,7 +282,7 @@ type c04Ref struct {
 }
 
 // c04Reference computes the reference verdict through the library.
-func c04Reference(dir string, rules [][2]string) (ref c04Ref, infra error) {
+func c04Reference(dir string, files map[string]string, rules [][2]string) (ref c04Ref, infra error) {
 	rs, err := resolver.NewFileResolvers(filepath.Join(dir, "main.vcl"), []string{filepath.Join(dir, "inc")})
 	if err != nil {
 		return ref, err
@@ -281,10 +296,32 @@ func c04Reference(dir string, rules [][2]string) (ref c04Ref, infra error) {
 		ref.syntax = "main.vcl: " + err.Error()
 		return ref, nil
 	}
+	// Syntax errors of included modules are found by parsing every module file of the case
+	// directly (every generated module is reachable from main.vcl by construction): modules
+	// included at the root are VCL files, modules included inside a subroutine are statement lists.
+	var names []string
+	for rel := range files {
+		names = append(names, rel)
+	}
+	sort.Strings(names)
+	for _, rel := range names {
+		p := parser.New(lexer.NewFromString(files[rel], lexer.WithFile(rel)))
+		var perr error
+		if strings.HasPrefix(filepath.Base(rel), "s") {
+			_, perr = p.ParseSnippetVCL()
+		} else {
+			_, perr = p.ParseVCL()
+		}
+		if perr != nil {
+			ref.syntax = rel + ": " + perr.Error()
+			return ref, nil
+		}
+	}
 	lt := linter.New(&config.LinterConfig{IgnoreSubroutines: []string{"vcl_pipe"}})
 	lt.Lint(vcl, lcontext.New(lcontext.WithResolver(rs[0])))
 	if lt.FatalError != nil {
-		ref.syntax = fmt.Sprintf("included module: %v", lt.FatalError.Error)
+		// cannot happen when the linter agrees with the direct parses above
+		ref.syntax = fmt.Sprintf("included module (reported by the linter only): %v", lt.FatalError.Error)
 		return ref, nil
 	}
 	over := map[string]string{}
@@ -430,7 +467,7 @@ func checkC04(raw json.RawMessage) iso.Result {
 			return iso.Failf("INFRA: %v", err)
 		}
 	}
-	ref, ierr := c04Reference(dir, c.Rules)
+	ref, ierr := c04Reference(dir, c.Files, c.Rules)
 	if ierr != nil {
 		return iso.Failf("INFRA: reference: %v", ierr)
 	}
